@@ -37,7 +37,7 @@ func init() {
 	replayers["C18"] = replayC18
 }
 
-const c18Deadline = 3 * time.Second
+const c18Deadline = 30 * time.Second
 const c18Late = 2 * time.Millisecond
 
 // ---- run-length hex -------------------------------------------------------------------------
